@@ -33,6 +33,7 @@ impl<'r> fixed_point::FixedPointAnalysis<'r, LocationSet> for ReachingDefinition
                     .operation()
                     .scalars_written()
                     .into_iter()
+                    .flatten()
                     .for_each(|scalar_written| {
                         let kill: Vec<il::ProgramLocation> = state
                             .locations()
@@ -47,6 +48,7 @@ impl<'r> fixed_point::FixedPointAnalysis<'r, LocationSet> for ReachingDefinition
                                     .operation()
                                     .scalars_written()
                                     .into_iter()
+                                    .flatten()
                                     .any(|scalar| scalar == scalar_written)
                             })
                             .cloned()
